@@ -731,10 +731,9 @@ func (fr *Frame) closeLoop(lc *loopCtx, from *ssa.BasicBlock, st *State) {
 		for _, af := range lc.auto {
 			cond := fmt.Sprintf("(forall ((r!f Int)) (=> (<= r!f %s) (= (select %s r!f) (select %s r!f))))", af.alloc, u.heapCur(st, af.heap), af.preH)
 			o := u.oblige(st, "inv-keep", fmt.Sprintf("%s/inv-keep:%d.auto-frame:%s", fr.fnLabel(), lc.ordinal, af.heap), cond, blockPos(from), nil, "inferred loop frame: pre-existing rows of "+af.heap+" unchanged")
-			if o != nil && !u.quickCheck(o) {
-				u.autoFailed = append(u.autoFailed, af.key)
-				// drop the obligation again: the candidate is withdrawn on the next build
-				u.obls = u.obls[:len(u.obls)-1]
+			if o != nil {
+				// checked (in parallel) when the unit is complete; a failing candidate is withdrawn on the next build
+				u.pendingAuto = append(u.pendingAuto, pendingAuto{o, af.key})
 			}
 		}
 	}
